@@ -53,7 +53,7 @@ pub fn f64_of_word(w: u64) -> f64 {
 }
 
 /// one `MomentumAgent::update` with symbolic (last_price, momentum), finite parameters, n traders
-pub fn momentum_update(n: usize) {
+pub fn momentum_update(n: usize, decay: f64) {
     let tick: Price = 1;
     let mut env: Env = Env::new(any_u64(), tick, any_u64(), any_bool());
     // empty book: the observed mid is the constant (0 + MAX) / 2; the signal M still ranges over
@@ -61,12 +61,13 @@ pub fn momentum_update(n: usize) {
     let mid = env.get_orderbook().mid_price();
     let last = any_f64();
     let m0 = any_f64();
-    let decay = any_f64();
+    // decay is enumerated (0, 1/4, 1): proving the stored signal equal to a recomputation for a
+    // symbolic decay means proving two 53-bit multiplier circuits equivalent, which SAT cannot afford
     let demand = any_f64();
     let scale = any_f64();
     let ratio = any_f64();
-    assume(last.is_finite() && m0.is_finite() && decay.is_finite() && demand.is_finite() && scale.is_finite() && ratio.is_finite());
-    assume(last >= 0.0 && last <= 4294967295.0 && m0.abs() <= 4294967295.0 && decay >= 0.0 && decay <= 1.0 && ratio >= 0.0 && scale > 0.0 && scale <= 1.0e6);
+    assume(last.is_finite() && m0.is_finite() && demand.is_finite() && scale.is_finite() && ratio.is_finite());
+    assume(last >= 0.0 && last <= 4294967295.0 && m0.abs() <= 4294967295.0 && ratio >= 0.0 && scale > 0.0 && scale <= 1.0e6);
     let vol = any_u32();
     assume(vol >= 1);
     let mut agent = MomentumAgent {
@@ -100,7 +101,7 @@ pub fn momentum_update(n: usize) {
         if k < n_new {
             let o = log[k];
             let is_bid = o.bid;
-            dir_ok &= (m_expected > 0.0 && is_bid) || (m_expected < 0.0 && !is_bid);
+            dir_ok &= (agent.momentum > 0.0 && is_bid) || (agent.momentum < 0.0 && !is_bid);
             vol_ok &= o.vol == vol && (o.trader == 7 || (n == 2 && o.trader == 8));
             let market = o.price.is_none();
             if market {
@@ -114,11 +115,11 @@ pub fn momentum_update(n: usize) {
     vcheck!(n_new <= 2 * n, "MOMENTUM.at_most_one_limit_and_one_market_order_per_trader");
     vcheck!(dir_ok, "MOMENTUM.buys_iff_signal_positive_sells_iff_negative");
     vcheck!(vol_ok, "MOMENTUM.configured_volume_and_own_trader_ids");
-    if m_expected == 0.0 {
+    if agent.momentum == 0.0 {
         vcheck!(n_new == 0, "MOMENTUM.no_order_at_zero_signal");
     }
-    vcover!(n_new >= 1 && m_expected > 0.0, "cover.buys_in_rising_market");
-    vcover!(n_new >= 1 && m_expected < 0.0, "cover.sells_in_falling_market");
+    vcover!(n_new >= 1 && agent.momentum > 0.0, "cover.buys_in_rising_market");
+    vcover!(n_new >= 1 && agent.momentum < 0.0, "cover.sells_in_falling_market");
     core::mem::forget(env);
     core::mem::forget(agent);
 }
@@ -143,12 +144,14 @@ pub fn momentum_saturated(n: usize, rising: bool) {
     assume(ratio >= 1.0 && ratio <= 1.0e3);
     let vol = any_u32();
     assume(vol >= 1);
+    let prev = any_f64();
+    assume(prev.is_finite());
     let mut agent = MomentumAgent {
         price_dist: LogNormal::<f64>::new(0.0, 1.0).unwrap(),
         orders: Vec::new(),
         trader_ids: if n == 1 { vec![7] } else { vec![7, 8] },
         last_price: Some(last),
-        momentum: 0.0,
+        momentum: prev,
         n: n as f64,
         tick_size: tick.into(),
         // scale large enough that tanh saturates for every |M| >= 1 (tanh_sat model: |x| >= 20 -> +-1)
@@ -183,6 +186,86 @@ pub fn momentum_saturated(n: usize, rising: bool) {
     core::mem::forget(agent);
 }
 
+pub fn stub_buy_m<R: RngCore, D: Distribution<f64>, const M: usize, const N: usize>(env: &mut MarketEnv<M, N>, _rng: &mut R, _d: D, _mid: f64, tick: f64, vol: Vol, asset: AssetIdx, trader: TraderId) -> Result<MarketOrderId, OrderError> {
+    let k = any_u32();
+    let t = tick as Price;
+    assume(t >= 1 && (k as u64) * (t as u64) < Price::MAX as u64);
+    env.place_order(asset, Side::Bid, vol, trader, Some(k * t))
+}
+pub fn stub_sell_m<R: RngCore, D: Distribution<f64>, const M: usize, const N: usize>(env: &mut MarketEnv<M, N>, _rng: &mut R, _d: D, _mid: f64, tick: f64, vol: Vol, asset: AssetIdx, trader: TraderId) -> Result<MarketOrderId, OrderError> {
+    let k = any_u32();
+    let t = tick as Price;
+    assume(t >= 1 && k >= 1 && (k as u64) * (t as u64) < Price::MAX as u64);
+    env.place_order(asset, Side::Ask, vol, trader, Some(k * t))
+}
+pub fn stub_cancel_m<R: RngCore, const M: usize, const N: usize>(_env: &mut MarketEnv<M, N>, _rng: &mut R, _orders: &[MarketOrderId], _p: f32) -> Vec<MarketOrderId> {
+    Vec::new()
+}
+
+/// the multi-asset twin of `momentum_saturated` (agent on asset 1 of a two-asset environment), with
+/// an arbitrary previous momentum so that a stale read of the stored signal is visible
+pub fn momentum_market_saturated(n: usize, rising: bool) {
+    let tick: Price = 1;
+    let mut env: MarketEnv<2, 2> = MarketEnv::new(any_u64(), [1, tick], any_u64(), any_bool());
+    let mid = env.get_market().get_order_book(1).mid_price();
+    let last = any_f64();
+    assume(last >= 0.0 && last <= 4294967295.0);
+    if rising {
+        assume(mid - last >= 1.0);
+    } else {
+        assume(last - mid >= 1.0);
+    }
+    let demand = any_f64();
+    assume(demand.is_finite() && demand >= 2.0 * n as f64 && demand <= 1.0e9);
+    let ratio = any_f64();
+    assume(ratio >= 1.0 && ratio <= 1.0e3);
+    let vol = any_u32();
+    assume(vol >= 1);
+    let prev = any_f64();
+    assume(prev.is_finite());
+    let mut agent = MomentumMarketAgent {
+        price_dist: LogNormal::<f64>::new(0.0, 1.0).unwrap(),
+        orders: Vec::new(),
+        trader_ids: if n == 1 { vec![7] } else { vec![7, 8] },
+        last_price: Some(last),
+        // decay 1: the previous momentum must not matter
+        momentum: prev,
+        n: n as f64,
+        asset: 1,
+        tick_size: tick.into(),
+        params: MomentumParams { tick_size: tick, p_cancel: 0.0, trade_vol: vol, decay: 1.0, demand, scale: 20.0, order_ratio: ratio, price_dist_mu: 0.0, price_dist_sigma: 1.0 },
+    };
+    let mut rng = SymRng::new();
+    agent.update(&mut env, &mut rng);
+    let (log, n_new) = placed();
+    let mut n_market = 0usize;
+    let mut n_limit = 0usize;
+    let mut dir_ok = true;
+    let mut asset_ok = true;
+    let mut k = 0;
+    while k < 4 {
+        if k < n_new {
+            let o = log[k];
+            dir_ok &= o.bid == rising;
+            asset_ok &= o.asset == 1 && o.vol == vol && (o.trader == 7 || (n == 2 && o.trader == 8));
+            if o.price.is_none() {
+                n_market += 1;
+            } else {
+                n_limit += 1;
+            }
+        }
+        k += 1;
+    }
+    vcheck!(n_market == n, "MOMENTUM.saturated_demand_one_market_order_per_trader");
+    vcheck!(n_limit == n, "MOMENTUM.saturated_demand_and_ratio_one_limit_order_per_trader");
+    vcheck!(dir_ok, "MOMENTUM.buys_iff_signal_positive_sells_iff_negative");
+    vcheck!(asset_ok, "MOMENTUM.own_asset_volume_and_trader_ids");
+    vcheck!(agent.last_price == Some(mid), "MOMENTUM.remembers_the_mid_price_it_observed");
+    vcover!(n_new == 2 * n, "cover.every_trader_acted");
+    core::mem::forget(env);
+    core::mem::forget(agent);
+}
+
 /// tanh on saturated arguments only: |x| >= 20 -> exactly +-1 (true of every correctly rounded and
 /// of glibc's f64 tanh, which returns +-1 for |x| > 19.06)
 #[cfg(kani)]
@@ -202,7 +285,21 @@ vharnesses! {
     #[cfg_attr(kani, kani::stub(crate::agents::common::place_sell_limit_order, stub_sell))]
     #[cfg_attr(kani, kani::stub(crate::agents::common::cancel_live_orders, stub_cancel))]
     #[cfg_attr(kani, kani::stub(crate::Env::place_order, crate::Env::verif_log_place_order))]
-    fn c17_momentum_update_n1() { momentum_update(1) }
+    fn c17_momentum_update_n1_decay1() { momentum_update(1, 1.0) }
+    #[cfg_attr(kani, kani::unwind(12))]
+    #[cfg_attr(kani, kani::stub(f64::tanh, tanh_model))]
+    #[cfg_attr(kani, kani::stub(crate::agents::common::place_buy_limit_order, stub_buy))]
+    #[cfg_attr(kani, kani::stub(crate::agents::common::place_sell_limit_order, stub_sell))]
+    #[cfg_attr(kani, kani::stub(crate::agents::common::cancel_live_orders, stub_cancel))]
+    #[cfg_attr(kani, kani::stub(crate::Env::place_order, crate::Env::verif_log_place_order))]
+    fn c17_momentum_update_n2_decay_quarter() { momentum_update(2, 0.25) }
+    #[cfg_attr(kani, kani::unwind(12))]
+    #[cfg_attr(kani, kani::stub(f64::tanh, tanh_model))]
+    #[cfg_attr(kani, kani::stub(crate::agents::common::place_buy_limit_order, stub_buy))]
+    #[cfg_attr(kani, kani::stub(crate::agents::common::place_sell_limit_order, stub_sell))]
+    #[cfg_attr(kani, kani::stub(crate::agents::common::cancel_live_orders, stub_cancel))]
+    #[cfg_attr(kani, kani::stub(crate::Env::place_order, crate::Env::verif_log_place_order))]
+    fn c17_momentum_update_n1_decay0() { momentum_update(1, 0.0) }
     #[cfg_attr(kani, kani::unwind(12))]
     #[cfg_attr(kani, kani::stub(f64::tanh, tanh_sat))]
     #[cfg_attr(kani, kani::stub(crate::agents::common::place_buy_limit_order, stub_buy))]
@@ -224,4 +321,18 @@ vharnesses! {
     #[cfg_attr(kani, kani::stub(crate::agents::common::cancel_live_orders, stub_cancel))]
     #[cfg_attr(kani, kani::stub(crate::Env::place_order, crate::Env::verif_log_place_order))]
     fn c17_momentum_saturated_falling_n1() { momentum_saturated(1, false) }
+    #[cfg_attr(kani, kani::unwind(12))]
+    #[cfg_attr(kani, kani::stub(f64::tanh, tanh_sat))]
+    #[cfg_attr(kani, kani::stub(crate::agents::common::place_buy_limit_order_market, stub_buy_m))]
+    #[cfg_attr(kani, kani::stub(crate::agents::common::place_sell_limit_order_market, stub_sell_m))]
+    #[cfg_attr(kani, kani::stub(crate::agents::common::cancel_live_orders_market, stub_cancel_m))]
+    #[cfg_attr(kani, kani::stub(crate::MarketEnv::place_order, crate::MarketEnv::verif_log_place_order))]
+    fn c17_momentum_market_saturated_rising_n2() { momentum_market_saturated(2, true) }
+    #[cfg_attr(kani, kani::unwind(12))]
+    #[cfg_attr(kani, kani::stub(f64::tanh, tanh_sat))]
+    #[cfg_attr(kani, kani::stub(crate::agents::common::place_buy_limit_order_market, stub_buy_m))]
+    #[cfg_attr(kani, kani::stub(crate::agents::common::place_sell_limit_order_market, stub_sell_m))]
+    #[cfg_attr(kani, kani::stub(crate::agents::common::cancel_live_orders_market, stub_cancel_m))]
+    #[cfg_attr(kani, kani::stub(crate::MarketEnv::place_order, crate::MarketEnv::verif_log_place_order))]
+    fn c17_momentum_market_saturated_falling_n2() { momentum_market_saturated(2, false) }
 }
